@@ -214,6 +214,7 @@ type Sim struct {
 	awaitStart *task         // child of the go statement just executed: its start request must arrive before anything else is decided
 	quiescent  func()        // blocks until every other goroutine of the bubble is durably blocked (synctest.Wait)
 	stuck      chan struct{} // monitor -> scheduler: nothing can run
+	monDone    chan struct{} // closed when the monitor goroutine has left synctest.Wait for good
 }
 
 // TraceEvent is one scheduler decision (kept only when tracing is requested).
@@ -292,6 +293,37 @@ func New(cfg Config, n int, mapSeeds []uint64, keepTrace bool) *Sim {
 	return s
 }
 
+// Quiet runs f with the race detector's synchronisation tracking switched off (simulator
+// bookkeeping must not create happens-before edges between tasks).
+func Quiet(f func()) {
+	raceDisable()
+	f()
+	raceEnable()
+}
+
+// soloOps counts the decision points that calls outside simulations WOULD have been (pool, lock,
+// once, map, atomic operations and yield sites reached while no simulation is active): the cost of
+// a call when run alone, which the step budget of the simulation phase is relative to.
+var soloOps atomic.Int64
+
+func SoloOps() int  { return int(soloOps.Load()) }
+func ResetSoloOps() { soloOps.Store(0) }
+func noteSolo() {
+	raceDisable()
+	soloOps.Add(1)
+	raceEnable()
+}
+
+var countingGets atomic.Bool
+
+// CountGets makes ssync count pool requests also inside simulations (simulated reference runs).
+func CountGets(on bool)  { countingGets.Store(on) }
+func CountingGets() bool { return countingGets.Load() }
+
+// SetOrder replaces task i's map-order stream (so that a sequence of one-task simulations can
+// share one stream). Call before Run.
+func (s *Sim) SetOrder(i int, r *Rand) { s.tasks[i].order = r }
+
 // SetQuiescenceWait installs a function that blocks until every other goroutine of the run is
 // durably blocked (testing/synctest.Wait inside a bubble). With it the scheduler notices when the
 // running task blocks on something the simulator does not model (a channel, sync.Cond or WaitGroup
@@ -322,6 +354,7 @@ func (s *Sim) Run(bodies []func()) {
 	}
 	if s.quiescent != nil {
 		s.stuck = make(chan struct{})
+		s.monDone = make(chan struct{})
 		go s.monitor()
 	}
 	go s.loop()
@@ -334,6 +367,12 @@ func (s *Sim) Run(bodies []func()) {
 		if !leaked[t.id] {
 			<-t.finished
 		}
+	}
+	if s.monDone != nil {
+		// the monitor sits in synctest.Wait, which returns once everybody else is durably blocked:
+		// this receive is that moment. Only one goroutine per bubble may be in Wait, so the next
+		// simulation of this bubble must not start before the monitor is gone.
+		<-s.monDone
 	}
 	curTask.Store(nil)
 	active.Store(nil)
@@ -348,6 +387,7 @@ func register(t *task) {
 func (s *Sim) monitor() {
 	raceDisable()
 	defer raceEnable()
+	defer close(s.monDone)
 	for {
 		s.quiescent()
 		select {
@@ -427,6 +467,23 @@ func (s *Sim) loop() {
 
 		runnable := s.runnable()
 		if len(runnable) == 0 {
+			external := false
+			for _, t := range s.tasks {
+				if t.state == tsExternal {
+					external = true
+				}
+			}
+			if external && s.stuck != nil {
+				// tasks that were set aside may have been released and be running freely right now:
+				// wait until one of them reaches a decision point, or until the monitor says that
+				// every goroutine is durably blocked
+				select {
+				case r := <-s.reqCh:
+					s.accept(r.task, r)
+					continue
+				case <-s.stuck:
+				}
+			}
 			blocked := -1
 			for _, t := range s.tasks {
 				if t.state == tsPending {
@@ -435,7 +492,7 @@ func (s *Sim) loop() {
 				}
 			}
 			if blocked < 0 {
-				if s.jumpClock() {
+				if external && s.jumpClock() {
 					continue // a timer of the code under test fired and released somebody
 				}
 				for _, t := range s.tasks {
@@ -930,6 +987,7 @@ func SetLiveSites(l []bool) {
 func Yield(site int32) {
 	s := active.Load()
 	if s == nil {
+		noteSolo()
 		return
 	}
 	if l := liveSites.Load(); l != nil && site >= 0 && int(site) < len(*l) && !(*l)[site] {
@@ -991,6 +1049,7 @@ var soloStamp atomic.Int64
 func PoolGet(key unsafe.Pointer) (obj any, fresh bool, simulated bool) {
 	s, t := current()
 	if s == nil {
+		noteSolo()
 		return nil, true, false
 	}
 	rs := s.call(t, req{task: t, kind: KGet, key: key})
@@ -1001,6 +1060,7 @@ func PoolGet(key unsafe.Pointer) (obj any, fresh bool, simulated bool) {
 func PoolPut(key unsafe.Pointer, obj any) bool {
 	s, t := current()
 	if s == nil {
+		noteSolo()
 		return false
 	}
 	s.call(t, req{task: t, kind: KPut, key: key, obj: obj})
@@ -1010,6 +1070,7 @@ func PoolPut(key unsafe.Pointer, obj any) bool {
 func MutexLock(key unsafe.Pointer, read bool) bool {
 	s, t := current()
 	if s == nil {
+		noteSolo()
 		return false
 	}
 	k := KLock
@@ -1023,6 +1084,7 @@ func MutexLock(key unsafe.Pointer, read bool) bool {
 func MutexUnlock(key unsafe.Pointer, read bool) bool {
 	s, t := current()
 	if s == nil {
+		noteSolo()
 		return false
 	}
 	k := KUnlock
@@ -1038,6 +1100,7 @@ func MutexUnlock(key unsafe.Pointer, read bool) bool {
 func OnceEnter(key unsafe.Pointer) (bool, bool) {
 	s, t := current()
 	if s == nil {
+		noteSolo()
 		return false, false
 	}
 	rs := s.call(t, req{task: t, kind: KOnceEnter, key: key})
